@@ -27,6 +27,9 @@ RULE = ('Seeded random cases. Family "get": a dataset of 2-40 clients (hostile i
         'same/re-opened dataset. Non-trivial: at least one (seed,cohort,round) was observed twice (get) / at least one '
         'restart with r>=1 compared (stream); distinct by (ids, kind, configuration, request program).')
 RULE += (' Wave-4 addition: the first 12 (quick) / 40 (thorough) histories per family and shard are replayed in a fresh interpreter under another PYTHONHASHSEED; ids and keys of every judged (seed, round) must agree.')
+# Configuration shards (vmon.run): the cases of the plain shard with the given index are run once more in a process started
+# under an environment the library is supposed to be indifferent to.
+CONFIGS = {'quick': [{'name': 'rbg-prng', 'env': {'JAX_DEFAULT_PRNG_IMPL': 'rbg'}, 'shard': 1}], 'thorough': [{'name': 'rbg-prng', 'env': {'JAX_DEFAULT_PRNG_IMPL': 'rbg'}, 'shard': 1}, {'name': 'unsafe-rbg-prng', 'env': {'JAX_DEFAULT_PRNG_IMPL': 'unsafe_rbg'}, 'shard': 2}, {'name': 'threefry-nonpartitionable', 'env': {'JAX_THREEFRY_PARTITIONABLE': '0'}, 'shard': 3}]}
 ASSUMPTIONS = [
     'round numbers 0..10^6, seeds 0..2^32-1 (numpy RandomState domain), cohort 1..number of clients of the view',
     'the order of client_ids() may differ between implementations, so histories are kept per dataset kind; a re-opened '
@@ -48,8 +51,8 @@ _Q = {
     'nul-family-ids': 60, 'cohort=n': 40, 'cohort=1': 30, 'round>=1e5': 300,
     'stream-seed=0': 6,
 }
-MIN_HITS = {'quick': dict(_Q, **{'hit:fresh-interpreter-history': 60}),
-            'thorough': dict({k: 15 * v for k, v in _Q.items()}, **{'hit:fresh-interpreter-history': 800})}
+MIN_HITS = {'quick': dict(_Q, **{'hit:fresh-interpreter-history': 60, 'hit:big-population': 5}),
+            'thorough': dict({k: 15 * v for k, v in _Q.items()}, **{'hit:fresh-interpreter-history': 800, 'hit:big-population': 30})}
 TECHNIQUE = ('runtime monitoring: history-table oracle over (seed, cohort, round) for UniformGetClientSampler under hostile '
              'request orders / fresh samplers / set_round_num, and restart-vs-from-zero differential for '
              'UniformShuffledClientSampler over identically seeded shuffled_clients streams')
@@ -442,6 +445,61 @@ def case_stream(ctx, jax, cs, mods, rng, tmpdir, case_no):
     world.close()
 
 
+def case_bigpop(ctx, jax, cs, mods, rng, case_no):
+  """Populations of 10^4 clients and more (any size-dependent sampling strategy): sequential rounds, repeated rounds, fresh
+  samplers seated at a round, set_round_num jumps -- every observation of a (seed, round) must agree."""
+  fdm, im, sq = mods
+  n = int([9999, 10000, 10001, 12000, 16385, 20011][case_no % 6])
+  ex = {'idx': np.zeros(1, np.int64)}
+  mapping = {b'p%06d' % i: ex for i in range(n)}
+  fd = im.InMemoryFederatedData(mapping)
+  seed, cohort = draw_seed(rng), int([1, 50, 200, 777][rng.randint(4)])
+  wit = {'family': 'bigpop', 'population': n, 'seed': seed, 'cohort': cohort}
+
+  class W:       # the minimal "world" judge_round needs
+    idset = frozenset(mapping)
+    truth = {}
+  hist, keyseen = {}, {}
+
+  def observe(sampler, rnd, via, step):
+    w = dict(wit, round=rnd, via=via, step=step)
+    rr = ctx.call('sample', sampler.sample, witness=w)
+    if not rr.ok:
+      return False
+    res = rr.value
+    ok = isinstance(res, list) and len(res) == cohort and all(isinstance(t, tuple) and len(t) == 3 for t in res)
+    ctx.check(ok, 'round/cohort-size', f'sample() returned {len(res) if hasattr(res, "__len__") else "?"} entries for cohort {cohort}', w)
+    if not ok:
+      return False
+    ids = tuple(bytes(t[0]) for t in res)
+    ctx.check(len(set(ids)) == len(ids), 'round/repeated-id', 'a client id is repeated within one round', dict(w, got_ids=ids[:20]))
+    ctx.check(all(c in W.idset for c in ids), 'round/foreign-id', 'sample() returned an id that is not an id of the dataset', w)
+    keys = tuple(key_bytes(jax, t[2]) for t in res)
+    ctx.check(len(set(keys)) == len(keys), 'keys/repeated-within-round', 'two clients of one round received the same key', w)
+    compare_history(ctx, hist, rnd, (ids, keys, tuple([None] * len(ids))), w, 'pure', ('ids-differ', 'keys-differ', 'data-differ'))
+    return True
+
+  r = ctx.call('UniformGetClientSampler', cs.UniformGetClientSampler, fd, cohort, seed, witness=wit)
+  if not r.ok:
+    return ctx.case_done(None, sample=wit, klass=['bigpop'])
+  s0 = r.value
+  ok = all(observe(s0, rnd, 'auto-increment', rnd) for rnd in range(4))
+  if ok:
+    ctx.count('hit:big-population')
+    ctx.call('set_round_num', s0.set_round_num, 1, witness=wit)
+    observe(s0, 1, 'set_round_num', 4)
+    observe(s0, 2, 'auto-increment', 5)
+    r3 = ctx.call('UniformGetClientSampler', cs.UniformGetClientSampler, fd, cohort, seed, 3, witness=wit)
+    if r3.ok:
+      observe(r3.value, 3, 'fresh-start_round_num', 6)
+    r0 = ctx.call('UniformGetClientSampler', cs.UniformGetClientSampler, fd, cohort, seed, witness=wit)
+    if r0.ok:
+      observe(r0.value, 0, 'fresh', 7)
+      ctx.call('set_round_num', r0.value.set_round_num, 3, witness=wit)
+      observe(r0.value, 3, 'fresh-set_round_num', 8)
+  ctx.case_done(('bigpop', n, seed, cohort), sample=wit, klass=['bigpop'])
+
+
 def run(ctx):
   import fedjax  # pylint: disable=unused-import
   import jax
@@ -463,6 +521,9 @@ def run(ctx):
       TRACE = []
       case_stream(ctx, jax, cs, mods, rng, tmpdir, int(cid.split('/')[1]))
       traces[cid], TRACE = TRACE, None
+    if not ctx.xproc_child:
+      for cid, rng in ctx.cases('bigpop', 6 if ctx.quick else 36):
+        case_bigpop(ctx, jax, cs, mods, rng, int(cid.split('/')[1]))
   finally:
     shutil.rmtree(tmpdir, ignore_errors=True)
   if ctx.xproc_child:
